@@ -15,3 +15,12 @@ open RawPanelVerif.C01
 #print axioms enc_sound
 #print axioms enc_sound_E
 #print axioms enc_sound_append
+#print axioms mode_pack_masked
+#print axioms ext_pack_masked
+#print axioms colIndex_pack_masked
+#print axioms text_line_masked
+#print axioms enc_sound_masked
+#print axioms wire_domain_contains_domain
+#print axioms mask_invisible_on_domain
+#print axioms both_colours_rgb_wins
+#print axioms pair_mode_inferred
